@@ -301,6 +301,57 @@ func TestVerifC05(t *testing.T) {
 				})
 				r.EvalN("concurrent-construction:"+pn, hk.N(4000, 40000))
 			}
+			// slices far LONGER than a block (only the first 16 bytes count): lengths around 2^31 and 2^32, where a
+			// length test done in 32 bits changes sign or wraps; windows of one untouched zero mapping
+			if big := hk.ZeroMap(1<<32+8192, true); big != nil {
+				key := keys[1]
+				blk, _ := NewCipher(key)
+				refBlk := ref.NewSM4Block(key)
+				for _, l := range []int{1<<31 - 1, 1 << 31, 1<<31 + 15, 1<<31 + 16, 1<<31 + 17, 1<<32 - 1, 1 << 32, 1<<32 + 15, 1<<32 + 16, 1<<32 + 4096} {
+					in := rng.Bytes(16)
+					want := make([]byte, 16)
+					refBlk.Encrypt(want, in)
+					for shape := 0; shape < 3; shape++ {
+						copy(big[:16], in)
+						var dst, src []byte
+						switch shape {
+						case 0:
+							dst, src = make([]byte, 16), big[:l] // long source
+						case 1:
+							dst, src = big[4096:4096+l-4096], in // long destination
+						default:
+							dst, src = big[:l], big[:l] // both long, in place
+						}
+						p, msg, _, _ := hk.Try(func() { blk.Encrypt(dst, src) })
+						d := hk.D{"key": hk.Hex(key), "len": l, "shape": []string{"long-src", "long-dst", "long-in-place"}[shape]}
+						if p {
+							d["panic"] = msg
+							r.Violation("Encrypt-panics-on-long-slices:"+pn, d)
+						} else if !bytes.Equal(dst[:16], want) {
+							r.Violation("Encrypt-wrong-on-long-slices:"+pn, d)
+						}
+						back := make([]byte, 16)
+						csrc := src
+						if shape == 0 {
+							copy(big[:16], want)
+						} else {
+							csrc = dst
+						}
+						p, msg, _, _ = hk.Try(func() { blk.Decrypt(back, csrc[:len(csrc):len(csrc)]) })
+						if p || !bytes.Equal(back, in) {
+							d["panic"] = msg
+							r.Violation("Decrypt-wrong-on-long-slices:"+pn, d)
+						}
+						for i := 0; i < 16; i++ {
+							big[i], big[4096+i] = 0, 0
+						}
+					}
+					r.Eval(fmt.Sprintf("long-slices:%s", pn))
+				}
+				hk.Unmap(big)
+			} else {
+				r.Inconclusive("c05: cannot map 4 GiB of zero pages for the long-slice cases")
+			}
 			// object lifetimes: AEADs derived from a Block become garbage and are finalized while the Block lives on
 			lifetimeHistories(r, rng, pn, hk.N(6, 40), false, true, false)
 			// key lengths other than 16 must be rejected
